@@ -193,3 +193,23 @@ Proof.
   intros s offset. split; [apply match_link_dest_regen|]. intros H. split; [apply match_link_title_regen; exact H|apply shift_whitespace_regen; exact H].
 Qed.
 Print Assumptions C03_link_scanners_are_the_source.
+
+(* INDENTED CODE BLOCKS, any number of lines and any content (Proofs/CodeBlock.v): lines that begin with four spaces and are
+   not blank - whatever follows the four spaces: markers of lists, quotes, headings, fences, definitions, tables - are read
+   by BlockCode alone; the token holds the lines without the four spaces, one final newline; the HTML renderer writes
+   <pre><code> + the escaped text + </code></pre>.  For every configuration that tries BlockCode first or right after
+   HtmlBlock (all but the Markdown renderer's, which tries link reference definitions first). *)
+From Mistletoe Require Import Proofs.CodeBlock.
+Theorem C03_indented_code_block : forall cfg o l ls, Forall code_text (l :: ls) -> code_config cfg = true ->
+  parse_lines cfg (map code_line (l :: ls)) = (Document [BlockCode (join [10] (l :: ls) ++ [10])], [], [1%Z]) /\
+  render_html o (fst (fst (parse_lines cfg (map code_line (l :: ls))))) =
+  $"<pre><code>" ++ escape_html_text o (join [10] (l :: ls) ++ [10]) ++ $"</code></pre>" ++ [10%Z].
+Proof. intros. split; [apply indented_code_parses|apply indented_code_renders]; assumption. Qed.
+Print Assumptions C03_indented_code_block.
+
+Theorem C03_indented_code_hypotheses :
+  (forallb code_config [cfg_html; cfg_html_nohtml; cfg_latex; cfg_mathjax; cfg_default] = true /\ code_config cfg_markdown = false) /\
+  (Forall code_text [$"def f(x):"; $"    return <x> & 1"; $"- not a list"; $"> not a quote"; $"# not a heading"] /\
+   ~ code_text ($"  ") /\ code_line ($"x = 1") = $"    x = 1" ++ [10%Z]).
+Proof. split; [exact code_configs|exact code_instance]. Qed.
+Print Assumptions C03_indented_code_hypotheses.
